@@ -82,4 +82,85 @@ theorem isomap_scale_equivariant (δ : Nat → Nat → K) {N : Nat} (hN : 0 < N)
       rfl
     rw [this, Matrix.diagonal_smul, Matrix.mul_smul, Matrix.smul_mul]
 
+/-- **isomap_permutation_equivariant.**  Re-order the samples by any permutation `π` (new sample `a` is old sample
+    `π a`; the re-ordered callback is `δ ∘ (π × π)`), with tie-free non-negative distances (tie-freeness exactly as C03
+    `exactKnn_unique_of_tieFree` needs it: from no sample are two samples equally far) and ANY two exact searches, one
+    per ordering.  Both runs of the composed model succeed; they try the same k sequence and stop at the same `k'`; the
+    returned graphs are the searches' graphs for `k'`, and the second is the relabelled first up to the order inside each
+    list (`SameEdges (relabel …)`); `G' = Π G Πᵀ`, `B' = Π B Πᵀ` (entrywise: `G' i j = G (π i) (π j)`); if `(V, λ)`
+    meets the solver contract for `B` then `(ΠV, λ)` meets it for `B'`; and with that outcome (and `sqrt` contracts on
+    both sides) `Y'·Y'ᵀ = Π (Y·Yᵀ) Πᵀ`: the same embedding, relabelled.  Queue disciplines, tie-breaking streams and
+    `sqrt` oracles are independent on the two sides. -/
+theorem isomap_permutation_equivariant {N : Nat} (π : Equiv.Perm (Fin N)) (δ : Nat → Nat → K) (hN : 0 < N) {k : Nat}
+    (hk : 1 ≤ k) (hkN : k ≤ N - 1) (d : Nat) (hw : ∀ a b, 0 ≤ δ a b)
+    (htf : ∀ i, i < N → ∀ a ∈ List.range N, ∀ b ∈ List.range N, δ i a = δ i b → a = b)
+    (search search' : Nat → Graph) (hlen : ∀ k, (search k).length = N)
+    (hexact : ∀ k, k ≤ N - 1 → ∀ u (hu : u < (search k).length), IsExactKnn δ (List.range N) k u (search k)[u])
+    (hlen' : ∀ k, (search' k).length = N)
+    (hexact' : ∀ k, k ≤ N - 1 → ∀ u (hu : u < (search' k).length),
+      IsExactKnn (fun a b => δ (pOf π a) (pOf π b)) (List.range N) k u (search' k)[u])
+    (disc disc' : Dijkstra.Disc) (ch ch' : Nat → Nat → Nat) (solver solver' : Mat N N K → Mat N d K × Vec d K)
+    (sqrtO sqrtO' : K → K) :
+    ∃ o o', isomapEmbedModel δ N k true d search disc ch solver sqrtO = .ok o ∧
+      isomapEmbedModel (fun a b => δ (pOf π a) (pOf π b)) N k true d search' disc' ch' solver' sqrtO' = .ok o' ∧
+      o'.found.k = o.found.k ∧ o'.found.tried = o.found.tried ∧
+      o.found.graph = search o.found.k ∧ o'.found.graph = search' o.found.k ∧
+      SameEdges (relabel o.found.graph (permList π) (permList π.symm)) o'.found.graph N ∧
+      (∀ i j, o'.G i j = o.G (π i) (π j)) ∧ (∀ i j, o'.B i j = o.B (π i) (π j)) ∧
+      (IsTopEig (Mat.toM o.B) (Mat.toM o.V) o.lam →
+        IsTopEig (Mat.toM o'.B) ((Mat.toM o.V).submatrix π id) o.lam) ∧
+      (IsTopEig (Mat.toM o.B) (Mat.toM o.V) o.lam → (∀ i c, o'.V i c = o.V (π i) c) → o'.lam = o.lam →
+        (∀ j, sqrtO (clamp0 (o.lam j)) * sqrtO (clamp0 (o.lam j)) = clamp0 (o.lam j)) →
+        (∀ j, sqrtO' (clamp0 (o'.lam j)) * sqrtO' (clamp0 (o'.lam j)) = clamp0 (o'.lam j)) →
+        Mat.toM o'.Y * (Mat.toM o'.Y)ᵀ = (Mat.toM o.Y * (Mat.toM o.Y)ᵀ).submatrix π π) := by
+  obtain ⟨o, ho, ⟨j, hkj, -⟩, -, ⟨-, hG⟩, ⟨-, -, hB⟩, ⟨-, hY, -⟩⟩ :=
+    isomap_end_to_end δ hN hk hkN d hw search hlen hexact disc ch solver sqrtO
+  obtain ⟨o', ho', -, -, ⟨-, hG'⟩, ⟨-, -, hB'⟩, ⟨-, hY', -⟩⟩ :=
+    isomap_end_to_end (fun a b => δ (pOf π a) (pOf π b)) hN hk hkN d (fun a b => hw _ _) search' hlen' hexact'
+      disc' ch' solver' sqrtO'
+  have hp := isPermPair π
+  have huS : ∀ k, k ≤ N - 1 → Uniform (search k) N k := fun k hk' => uniform_of_exact (hlen k) (hexact k hk')
+  have huS' : ∀ k, k ≤ N - 1 → Uniform (search' k) N k := fun k hk' => uniform_of_exact (hlen' k) (hexact' k hk')
+  have heq : ∀ k, k ≤ N - 1 → SameEdges (relabel (search k) (permList π) (permList π.symm)) (search' k) N :=
+    fun k hk' => sameEdges_of_exact π htf (hlen k) (hexact k hk') (hlen' k) (hexact' k hk')
+  have hrun := result_order_independent search search' hN hp huS huS' heq (findFuel N) k
+  rw [model_found ho, model_found ho'] at hrun
+  obtain ⟨hk', htr, hg, hg'⟩ := hrun
+  have hk'le : o.found.k ≤ N - 1 := by rw [hkj]; exact Nat.min_le_right _ _
+  have hse : SameEdges (relabel o.found.graph (permList π) (permList π.symm)) o'.found.graph N := by
+    rw [hg, hg']; exact heq _ hk'le
+  have hu : Uniform o.found.graph N o.found.k := by rw [hg]; exact huS _ hk'le
+  have hu' : Uniform o'.found.graph N o.found.k := by rw [hg']; exact huS' _ hk'le
+  have hGG : ∀ i j, o'.G i j = o.G (π i) (π j) := by
+    intro i j
+    have h1 := (hG (π i) (π j)).2
+    have h3 := geodesic_perm_edges π hu hu' hse h1
+    rw [← pOf_fin π i, ← pOf_fin π j, pOf_symm, pOf_symm] at h3
+    have h2 := (hG' i j).2
+    rw [hk'] at h2
+    exact Option.some.inj (h2.unique h3)
+  have hBB : ∀ i j, o'.B i j = o.B (π i) (π j) := by
+    intro i j
+    rw [hB', hB, ← isomapPre_eq_isomapPreOfGeodesics, ← isomapPre_eq_isomapPreOfGeodesics,
+      show o'.G = Equivariance.relabel π o.G from funext fun i => funext fun j => hGG i j, C12b.isomapPre_perm]
+    rfl
+  have hBM : Mat.toM o'.B = (Mat.toM o.B).submatrix π π := by
+    ext i j
+    simp only [Mat.toM_apply, Matrix.submatrix_apply, hBB]
+  refine ⟨o, o', ho, ho', hk', htr, hg, hg', hse, hGG, hBB, ?_, ?_⟩
+  · intro htop
+    rw [hBM]
+    exact C12b.spectralTopEig_perm π htop
+  · intro htop hV hlam hs hs'
+    have hVM : Mat.toM o'.V = (Mat.toM o.V).submatrix π id := by
+      ext i c
+      simp only [Mat.toM_apply, Matrix.submatrix_apply, hV, id]
+    have htop' : IsTopEig (Mat.toM o'.B) (Mat.toM o'.V) o'.lam := by
+      rw [hBM, hVM, hlam]
+      exact C12b.spectralTopEig_perm π htop
+    rw [hY, hY', (C05.mds_gram _ _ _ _ htop.toIsEigSystem hs).2, (C05.mds_gram _ _ _ _ htop'.toIsEigSystem hs').2,
+      hVM, hlam]
+    ext i j
+    simp [Matrix.mul_apply, Matrix.submatrix_apply]
+
 end TapkeeVerif.EquivCompose
